@@ -47,6 +47,13 @@ of the generator during which `generate` changes; the real ping burst window (su
 ping periods can be simulated) beyond "3 or more cycles is too long"; true asynchronous sampling (the envelope is
 driven synchronously, so the synchroniser is a pure delay).
 
+Known finding (findings/C42.md): a demanded report that is missing is labelled
+`burst_start_missed_1_cycle_after_measurement_abandoned` iff the burst whose measurement is needed began exactly one
+cycle after the falling edge of a burst that ended a measurement (too short, or any non-over-long burst of a one-shot
+pattern) or exactly one cycle after the repeat maximum behind an accepted burst (`missed_start_pattern`, a classifier,
+not part of the oracle); every other missing report is `detect_missing_periodic` / `detect_missing_oneshot`.  At most
+three such violations are recorded per case, after all others.
+
 Deviation from DESIGN section 7: the don't-care band is +-2 cycles instead of +-3 (tighter, still sound for the
 rounding choices ceil/floor and count-from-0/1), and synthetic patterns were added because the real ping/reset
 constants leave one of the two windows degenerate at any clock that can be simulated.
